@@ -15,7 +15,9 @@ from .onestep import check_post_state, check_wellformed, check_errors, target_cl
 
 
 def UT():
+    # 'ab' is a sibling whose name starts with the source directory's name: it must never be touched by a transfer of 'a'
     return Universe([Node('a', 'R', 'a'), Node('a_b', 'a', 'b'), Node('a_b_c', 'a_b', 'c'), Node('f', 'R', 'f', kinds=('f',)),
+                     Node('ab', 'R', 'ab', kinds=('d',)), Node('ab_c', 'ab', 'c', kinds=('f',)),
                      Node('x', 'R', 'x'), Node('x_b', 'x', 'b'), Node('x_b_c', 'x_b', 'c')], 'UT')
 
 
